@@ -1382,6 +1382,7 @@ class Interp(object):
                 used.append((a1, ('aff', a2, deltas[a1], deltas[a2], entry[a1], entry[a2]), None))
         st.flags['wbegin:' + fn.name] = begin
         st.flags['hbegin:%s:%s' % (fn.name, header)] = begin
+        st.flags['hfirst:%s:%s' % (fn.name, header)] = (rec[0] == 0)      # abstracted at the first arrival: the head state includes iteration 0
         st.flags['hentry:%s:%s' % (fn.name, header)] = dict((n2, entry.get(n2, orig_vals.get(n2)) if self.h.widen_on_entry else entry.get(n2))
                                                              for n2 in begin)
         extra = self.h.loop_candidates(self, st, fn, header, phis)
